@@ -21,6 +21,29 @@ NAMES = {
 }
 
 
+PAIRS = {"space_dash": ("my prop", "my-prop"), "case": ("Label", "label"), "underscore_dash": ("my_prop", "my-prop"), "initialism": ("userId", "user_id"),
+         "punct": ("a+b", "a-b"), "digit_prefix": ("1st", "_1st")}
+
+
+def pair_spec(pos, names):
+    d = name_spec("none", "-")
+    op = d["paths"]["/things"]["get"]
+    a, b = names
+    if pos == "property":
+        d["definitions"]["thing"]["properties"][a] = {"type": "integer"}
+        d["definitions"]["thing"]["properties"][b] = {"type": "string"}
+    elif pos == "parameter":
+        op["parameters"] += [{"name": a, "in": "query", "type": "string"}, {"name": b, "in": "query", "type": "integer"}]
+    elif pos == "enum":
+        d["definitions"]["thing"]["properties"]["kind"]["enum"] = [a, b, "other"]
+    elif pos == "header":
+        op["responses"]["200"]["headers"] = {a: {"type": "string"}, b: {"type": "integer"}}
+    elif pos == "tag":
+        op["tags"] = [a]
+        d["paths"]["/other"] = {"get": {"operationId": "getOther", "tags": [b], "responses": {"200": {"description": "ok"}}}}
+    return d
+
+
 def name_spec(pos, name):
     esc = lambda n: n.replace("~", "~0").replace("/", "~1")
     import urllib.parse
@@ -63,7 +86,7 @@ def norm_errs(txt):
         m = re.match(r"^([^ :]+\.go):\d+:\d+: (.*)$", l)
         if not m:
             continue
-        f = os.path.basename(m.group(1))
+        f = re.sub(r"op\d+", "opN", os.path.basename(m.group(1)))     # operations of the parameter universe are numbered
         if f in out:
             continue
         msg = re.sub(r"\b[A-Za-z0-9_]*(?:Thing|thing|Private|Model|Enum|Url|HTTP)[A-Za-z0-9_]*\b", "<id>", m.group(2))
@@ -85,7 +108,8 @@ def check(run, replay=None):
         docs = [c for c in cases if c["kind"] == "doc"]
         keep_docs = [c for c in docs if c["mode"] == "minimal" and not c["opts"] and c["doc"] != "models"]
         keep_docs += rnd.sample([c for c in docs if c not in keep_docs and c["doc"] not in ("models",)], 16)
-        cases = names + other_names + keep_docs
+        pairs = [c for c in cases if c["kind"] == "pair" and c["target"] in ("server", "model")]
+        cases = names + other_names + keep_docs + pairs
     # documents of the other families
     docs = {"rich": text_family.base_spec(), "nested": text_family.nested_spec(), "wide": det_family.wide_spec()}
     docfiles = {}
@@ -113,6 +137,8 @@ def check(run, replay=None):
         mod = run.scratch_module("b%d" % i, modname="scratch/gen")
         if c["kind"] == "name":
             sp = os.path.join(mod, "spec.json"); json.dump(name_spec(c["pos"], NAMES[c["cls"]]), open(sp, "w"))
+        elif c["kind"] == "pair":
+            sp = os.path.join(mod, "spec.json"); json.dump(pair_spec(c["pos"], PAIRS[c["cls"]]), open(sp, "w"))
         else:
             sp = docfiles[c["doc"]]
         args = TARGET_ARGS[c["target"]] + ["-f", sp, "-t", mod] + MODE_ARGS[c["mode"]]
@@ -130,7 +156,7 @@ def check(run, replay=None):
                     err=g.stderr[-400:] if g.returncode else "")]
         if g.returncode == 0:
             b = run.sh(["go", "build", "-gcflags=-e", "./..."], cwd=mod, check=False, timeout=1800)
-            evs.append(dict(ev="Build", i=i, ok=b.returncode == 0, err=b.stderr[:6000]))
+            evs.append(dict(ev="Build", i=i, ok=b.returncode == 0, err=b.stderr[:400000]))
         else:
             evs.append(dict(ev="NoBuild", i=i))
         shutil.rmtree(mod, ignore_errors=True)
@@ -149,7 +175,9 @@ def check(run, replay=None):
         if t == "REJECT" and e["line"] not in seen:
             seen.add(e["line"])
             ev = events[e["line"] - 1]; c = cases[ev["i"]]
-            if c["kind"] == "name":
+            if c["kind"] == "pair":
+                sig = "%s | %s pair %r / %r, target %s" % (e["why"], c["pos"], PAIRS[c["cls"]][0], PAIRS[c["cls"]][1], c["target"])
+            elif c["kind"] == "name":
                 # one defect per (position, name, target): the pre-processing mode does not take part in name mangling
                 sig = "%s | %s named %r, target %s" % (e["why"], c["pos"], NAMES[c["cls"]], c["target"])
             else:
